@@ -168,6 +168,49 @@ def _inactive_want(env: dict, f: dict) -> t.Any:
     return "real"
 
 
+def spec_dialect(cfg: t.List[t.List[t.Any]]) -> str:
+    d = _aget(cfg, "sqlframe.input.dialect")
+    return d["str"]["s"] if isinstance(d, dict) and "str" in d else "spark"
+
+
+def spec_conn(cfg: t.List[t.List[t.Any]]) -> t.Any:
+    cn = _aget(cfg, "sqlframe.conn")
+    return {"given": {"n": cn["conn"]["n"]}} if isinstance(cn, dict) and "conn" in cn else "default"
+
+
+def conn_is_bad(env: dict, c: t.Any) -> bool:
+    return isinstance(c, dict) and "given" in c and c["given"]["n"] in env.get("badConns", [])
+
+
+def session_want(env: dict, active: t.Optional[str], mocked: bool, cfg: t.List[t.List[t.Any]]) -> t.Any:
+    """sessionWant of Impl/C20Spec.lean"""
+    if active is not None:
+        if active in ("duckdb", "standalone"):
+            d = spec_dialect(cfg)
+            if d not in VALID_DIALECTS:
+                return "raises"
+            if active == "standalone":
+                return {"session": {"conn": "none", "dialect": d, "engine": active}}
+            if conn_is_bad(env, spec_conn(cfg)):
+                return "raises"
+            return {"session": {"conn": spec_conn(cfg), "dialect": d, "engine": active}}
+        return "any"
+    if mocked:
+        return "any"
+    r = _env_find(env, "pyspark.sql")
+    return "raises" if r is None or r["raises"] is not None else "real"
+
+
+def attempt_of(env: dict, active: t.Optional[str], cfg: t.List[t.List[t.Any]]) -> t.Optional[t.Tuple[str, bool]]:
+    if active in ("duckdb", "standalone") and spec_dialect(cfg) in VALID_DIALECTS:
+        return (active, not (active == "duckdb" and conn_is_bad(env, spec_conn(cfg))))
+    return None
+
+
+def cfg_keys(cfg: t.List[t.List[t.Any]]) -> t.List[str]:
+    return [k for k, _ in cfg if k in ("sqlframe.conn", "sqlframe.input.dialect")]
+
+
 def spec_trace(tb: Tables, env: dict, events: t.List[t.Any]) -> t.List[dict]:
     """specTrace of Impl/C20Spec.lean"""
     active: t.Optional[str] = None
@@ -194,19 +237,7 @@ def spec_trace(tb: Tables, env: dict, events: t.List[t.Any]) -> t.List[dict]:
         if ev == "deactivate":
             active, mocked, cfg, want = None, False, [], "noRaise"
         elif ev == "sessionCreate":
-            if active is not None:
-                if active in ("duckdb", "standalone"):
-                    d = _aget(cfg, "sqlframe.input.dialect")
-                    d = d["str"]["s"] if isinstance(d, dict) and "str" in d else "spark"
-                    if d not in VALID_DIALECTS:
-                        want = "raises"
-                    else:
-                        cn = _aget(cfg, "sqlframe.conn")
-                        conn = "none" if active == "standalone" else ({"given": {"n": cn["conn"]["n"]}} if isinstance(cn, dict) and "conn" in cn else "default")
-                        want = {"session": {"conn": conn, "dialect": d, "engine": active}}
-            elif not mocked:
-                r = _env_find(env, "pyspark.sql")
-                want = "raises" if r is None or r["raises"] is not None else "real"
+            want = session_want(env, active, mocked, cfg)
         elif "activate" in ev:
             want, active, mocked, cfg = activate(ev["activate"])
         elif "ctxEnter" in ev:
@@ -274,8 +305,29 @@ def violated(tb: Tables, env: dict, events: t.List[t.Any]) -> t.List[str]:
             stack -= 1
     if nested:
         out.append("H_ctxNotNested")
-    if sum(1 for ev in events if ev == "sessionCreate") > 1:
+    # sessions: the state BEFORE each getOrCreate()
+    full_before = [{"active": None, "mocked": False, "config": []}] + tr[:-1]
+    attempts: t.List[t.Tuple[str, bool]] = []
+    told: t.List[t.Tuple[str, t.List[str]]] = []
+    single_ok = True
+    builder_ok = True
+    for ev, st in zip(events, full_before):
+        if ev != "sessionCreate":
+            continue
+        at = attempt_of(env, st["active"], st["config"])
+        if at is not None:
+            if not all(e == at[0] and not ok for e, ok in attempts):
+                single_ok = False
+            attempts.insert(0, at)
+        if st["active"] is not None:
+            ks = cfg_keys(st["config"])
+            if not all(e != st["active"] or all(k in ks for k in pk) for e, pk in told):
+                builder_ok = False
+            told.insert(0, (st["active"], ks))
+    if not single_ok:
         out.append("H_sessionSingleton")
+    if not builder_ok:
+        out.append("H_builderFresh")
     for ev in events:
         if isinstance(ev, dict) and ("ctxEnter" in ev or "activate" in ev):
             a = ev.get("ctxEnter") or ev.get("activate")
